@@ -139,6 +139,8 @@ class Result:
             print("KNOWN-FINDING: property=%s %s (%d events)" % (self.pid, fid, n))
         for ln in lines:
             print(ln)
+        for cls, n in sorted(self.notes.get("violation_classes", {}).items()):
+            print("  violation class %s : %d events" % (cls, n))
         print("%s %s: %d model states, %d events judged, %d violations, %.0fs" % (
             self.pid, self.tier, self.states, self.traces, len(self.violations), wall))
         return 1 if self.violations else 0
